@@ -390,6 +390,32 @@ func genProfile(r *rng.R, u *universe, in *Input) {
 			in.ProfileArg = B("repo/profiles/none")
 		}
 	}
+	if r.Chance(1, 9) { // less tame symbolic links: a link to a link, a profile below a linked directory
+		switch r.Intn(3) {
+		case 0: // make.profile -> etc/portage/via -> leaf
+			for k := range in.Prof {
+				if string(in.Prof[k].Path) == mp && in.Prof[k].Link {
+					in.Prof[k].Target, in.Prof[k].AbsTarget = B("via"), false
+					in.Prof = append(in.Prof, ProfNode{Path: B("etc/portage/via"), Link: true, Target: B(relPath("etc/portage", dirs[0]))})
+					break
+				}
+			}
+		case 1: // -profile lnk/<leaf below repo/profiles>, lnk -> repo/profiles
+			if len(in.ProfileArg) > 0 && strings.HasPrefix(string(in.ProfileArg), "repo/profiles/") {
+				in.Prof = append(in.Prof, ProfNode{Path: B("lnk"), Link: true, Target: B("repo/profiles")})
+				in.ProfileArg = B("lnk/" + strings.TrimPrefix(string(in.ProfileArg), "repo/profiles/"))
+			}
+		case 2: // a parent named through a linked directory
+			in.Prof = append(in.Prof, ProfNode{Path: B("repo/alias"), Link: true, Target: B("profiles/default")})
+			for k := range in.Prof {
+				for j, l := range in.Prof[k].Parent {
+					if strings.Contains(string(l), "default/linux") && !in.Prof[k].Link {
+						in.Prof[k].Parent[j] = B(strings.Replace(string(l), "default/linux", "../alias/linux", 1))
+					}
+				}
+			}
+		}
+	}
 	if u.trouble(r, 0, 20, 8) { // a parent that does not exist
 		k := r.Intn(len(in.Prof))
 		if !in.Prof[k].Link {
